@@ -14,6 +14,10 @@
   neighbouring bit-size" tests of the generator); the driver instantiates it with a deterministic
   Miller–Rabin test and a port of Go's `math.Log2` on IEEE doubles (`goOracle`).
   Loops that are unbounded `for {}` in Go take a `fuel`; running out of fuel is the outcome `hang`.
+  The model follows /repo *with the C19 fixes applied* (/verif/fixes/C19-1…6): every modulus below
+  2^61, Q ∪ P pairwise distinct, LogN checked before moduli are generated, `GenModuli` range-checks
+  its `LogNthRoot` and rejects sizes below it, the single-direction generator loops return the
+  exhaustion error instead of spinning, bgv's auxiliary basis skips the primes of Q.
   Core Lean only.
 -/
 import Lattigo.Word
@@ -33,9 +37,6 @@ def MaxModuliSize : Nat := 60
 def MinRingDegree : Nat := 8
 /-- `ring.GaloisGen` -/
 def GaloisGen : Nat := 5
-/-- the package-level *test* variable `logN = 10` of core/rlwe/test_params.go which
-    `GenModuli` range-checks instead of its own argument (params.go:813). -/
-def testParamsLogN : Int := 10
 
 /-! ## outcomes -/
 
@@ -79,14 +80,15 @@ structure Gen where
 def newGen (bitSize nthRoot : Nat) : Gen :=
   let base := u64add (u64shl 1 bitSize) 1
   { size := bitSize, nthRoot := nthRoot, next := base, prev := u64sub base nthRoot,
-    checkNext := !(decide (base > W - 1 - nthRoot)),
-    checkPrev := !(decide (base < nthRoot)) }
+    checkNext := !(decide (base > W - 1 - nthRoot)) && !(decide (nthRoot = 0)),
+    checkPrev := !(decide (base < nthRoot)) && !(decide (nthRoot = 0)) }
 
-/-- loop of `NextUpstreamPrime`; `c` is the local `NextPrime`. -/
+/-- loop of `NextUpstreamPrime`; `c` is the local `NextPrime`. A disabled direction returns the
+    exhaustion error (before the fix `for { if false { … } }` never exited). -/
 def upLoop (o : Oracle) (g : Gen) : Nat → Nat → Gen × Res Nat
   | 0, _ => (g, .hang)
   | fuel + 1, c =>
-    if !g.checkNext then (g, .hang)          -- `for { if false { … } }` never exits
+    if !g.checkNext then (g, .err "exhausted")
     else if o.stopUp g.size c then ({ g with checkNext := false }, .err "exhausted")
     else if o.isPrime c then ({ g with next := u64add c g.nthRoot }, .ok c)
     else upLoop o g fuel (u64add c g.nthRoot)
@@ -97,7 +99,7 @@ def nextUp (o : Oracle) (fuel : Nat) (g : Gen) : Gen × Res Nat := upLoop o g fu
 def downLoop (o : Oracle) (g : Gen) : Nat → Nat → Gen × Res Nat
   | 0, _ => (g, .hang)
   | fuel + 1, c =>
-    if !g.checkPrev then (g, .hang)
+    if !g.checkPrev then (g, .err "exhausted")
     else if o.stopDown g.size c || decide (c < g.nthRoot) then
       ({ g with checkPrev := false }, .err "exhausted")
     else if o.isPrime c then ({ g with prev := u64sub c g.nthRoot }, .ok c)
@@ -163,24 +165,27 @@ def firstIdx {α} (bad : α → Bool) : List α → Nat → Option Nat
   | [], _ => none
   | x :: xs, i => if bad x then some i else firstIdx bad xs (i + 1)
 
-/-- `uint64(bits.Len64(x)-1) > MaxModuliSize+slack` (the `-1` wraps for `x = 0`) -/
-def tooManyBits (slack : Nat) (x : Nat) : Bool :=
-  decide (x = 0) || decide (len64 x - 1 > MaxModuliSize + slack)
+/-- `bits.Len64(x) > MaxModuliSize+1`: only moduli below `2^61` pass (`8x ≤ 2^64`) -/
+def tooManyBits (x : Nat) : Bool := decide (len64 x > MaxModuliSize + 1)
 
-/-- `CheckModuli(q, p)` — the code's exact comparisons: `+1` for Q, `+2` for P. -/
+def allDistinct : List Nat → Bool
+  | [] => true
+  | x :: xs => !xs.contains x && allDistinct xs
+
+/-- `CheckModuli(q, p)`: sizes and primality of Q, then of P, then `AllDistinct(Q ∪ P)`. -/
 def checkModuli (o : Oracle) (q p : List Nat) : Option String :=
-  match firstIdx (tooManyBits 1) q 0 with
+  match firstIdx tooManyBits q 0 with
   | some i => some s!"qBits:{i}"
   | none =>
   match firstIdx (fun x => !o.isPrime x) q 0 with
   | some i => some s!"qPrime:{i}"
   | none =>
-  match firstIdx (tooManyBits 2) p 0 with
+  match firstIdx tooManyBits p 0 with
   | some i => some s!"pBits:{i}"
   | none =>
   match firstIdx (fun x => !o.isPrime x) p 0 with
   | some i => some s!"pPrime:{i}"
-  | none => none
+  | none => if allDistinct (q ++ p) then none else some "qpNotDistinct"
 
 /-- `checkModuliLogSize` -/
 def checkModuliLogSize (logQ logP : List Int) : Option String :=
@@ -189,6 +194,16 @@ def checkModuliLogSize (logQ logP : List Int) : Option String :=
   | none =>
   match firstIdx (fun (s : Int) => decide (s ≤ 0) || decide (s > (MaxModuliSize : Int) + 1)) logP 0 with
   | some i => some s!"logPsize:{i}"
+  | none => none
+
+/-- sizes below the root order are rejected (`2^size ± k·NthRoot + 1` is `1 mod NthRoot` only if
+    `NthRoot ∣ 2^size`) -/
+def checkSizesAboveRoot (logNthRoot : Int) (logQ logP : List Int) : Option String :=
+  match firstIdx (fun (s : Int) => decide (s < logNthRoot)) logQ 0 with
+  | some i => some s!"logQbelowRoot:{i}"
+  | none =>
+  match firstIdx (fun (s : Int) => decide (s < logNthRoot)) logP 0 with
+  | some i => some s!"logPbelowRoot:{i}"
   | none => none
 
 /-! ## GenModuli -/
@@ -224,39 +239,33 @@ def assign (tbl : List (Nat × List Nat)) : List Nat → List Nat → List Nat
   | _, [] => []
   | seen, s :: rest => (lookupSize tbl s).getD (seen.count s) 0 :: assign tbl (s :: seen) rest
 
-/-- `GenModuli(LogNthRoot, logQ, logP)`.  `checkSizeParams(logN)` looks at the package-level test
-    variable, not at `LogNthRoot`, so it never fails. `1<<LogNthRoot` panics for a negative
-    shift count (only evaluated when at least one size is requested) and is 0 from 64 on. -/
+/-- `GenModuli(LogNthRoot, logQ, logP)`: the root order must lie in `[MinLogN+1, MaxLogN+2]`, the
+    sizes in `]0, 60]` (`]0, 61]` for P) and not below the root order. -/
 def genModuli (o : Oracle) (fuel : Nat) (logNthRoot : Int) (logQ logP : List Int) :
     Res (List Nat × List Nat) :=
-  match checkSizeParams testParamsLogN with
+  if logNthRoot < MinLogN + 1 || logNthRoot > MaxLogN + 2 then .err "logNthRoot"
+  else
+  match checkModuliLogSize logQ logP with
   | some c => .err c
   | none =>
-  match checkModuliLogSize logQ logP with
+  match checkSizesAboveRoot logNthRoot logQ logP with
   | some c => .err c
   | none =>
     let rq := logQ.map Int.toNat
     let rp := logP.map Int.toNat
     let req := rq ++ rp
-    if req.isEmpty then .ok ([], [])
-    else if logNthRoot < 0 then .panic
-    else
-      let nthRoot := u64shl 1 logNthRoot.toNat
-      match genAll o fuel nthRoot req req.eraseDups with
-      | .ok tbl =>
-        let all := assign tbl [] req
-        .ok (all.take rq.length, all.drop rq.length)
-      | .err _ => .err "genExhausted"
-      | .panic => .panic
-      | .hang => .hang
+    let nthRoot := 2 ^ logNthRoot.toNat
+    match genAll o fuel nthRoot req req.eraseDups with
+    | .ok tbl =>
+      let all := assign tbl [] req
+      .ok (all.take rq.length, all.drop rq.length)
+    | .err _ => .err "genExhausted"
+    | .panic => .panic
+    | .hang => .hang
 
 /-! ## ring construction checks (ring/ring.go:278, ring/subring.go:107) -/
 
 def isPow2 (n : Nat) : Bool := decide (n &&& (n - 1) = 0)
-
-def allDistinct : List Nat → Bool
-  | [] => true
-  | x :: xs => !xs.contains x && allDistinct xs
 
 /-- per-modulus check of `SubRing.generateNTTConstants` -/
 def subRingCheck (o : Oracle) (n nthRoot : Nat) (m : Nat) : Option String :=
@@ -345,6 +354,9 @@ def newParametersFromLiteral (o : Oracle) (fuel : Nat) (lit : Literal) : Res Acc
   else
     let gen : Res (Option (List Nat) × Option (List Nat)) :=
       if lit.logQ.isSome || lit.logP.isSome then
+        match checkSizeParams lit.logN with
+        | some c => .err c
+        | none =>
         if lit.ringType = 0 || lit.ringType = 1 then
           let l := max (lit.logN + (if lit.ringType = 0 then 1 else 2)) lit.logNthRoot
           match genModuli o fuel l (lit.logQ.getD []) (lit.logP.getD []) with
@@ -452,6 +464,23 @@ def orderLoop (t : Nat) : Nat → Nat → Nat
 
 def cyclotomicOrder (t : Nat) : Nat := orderLoop t 66 (u64shl 1 (len64 t))
 
+/-- the auxiliary basis: the next `need` downstream primes that are not in `avoid` -/
+def qmulLoop (o : Oracle) (fuel : Nat) (avoid : List Nat) : Nat → Nat → Gen → Res (List Nat)
+  | 0, _, _ => .hang
+  | outer + 1, need, g =>
+    if need = 0 then .ok []
+    else
+      match nextDown o fuel g with
+      | (g', .ok p) =>
+        if avoid.contains p then qmulLoop o fuel avoid outer need g'
+        else
+          match qmulLoop o fuel avoid outer (need - 1) g' with
+          | .ok ps => .ok (p :: ps)
+          | r => r
+      | (_, .err c) => .err c
+      | (_, .panic) => .panic
+      | (_, .hang) => .hang
+
 structure BgvAccepted where
   /-- degree of the plaintext ring `ringT` -/
   nT : Nat
@@ -466,7 +495,7 @@ def bgvNew (o : Oracle) (fuel : Nat) (a : Accepted) (t : Nat) : Res BgvAccepted 
   else if t > a.q.headD 0 then .err "tBig"
   else
     let nb := (len64 a.qProd + a.logN + 60) / 61       -- ceil((BitLen(Q)+LogN)/61.0)
-    match genPrimes o fuel 1 61 a.nthRoot nb with
+    match qmulLoop o fuel a.q (nb + a.q.length + 1) nb (newGen 61 a.nthRoot) with
     | .err _ => .err "genExhausted"
     | .panic => .panic
     | .hang => .hang
@@ -623,7 +652,7 @@ def exportedSets : List ExportedSet := [
     p := [2305843009211596801, 2305843009210023937, 2305843009208713217, 2305843009202159617, 2305843009201242113] },
   { name := "bootstrapping.N16QP1546H192H32:bootstrapping", logN := 16, xsH := 192, checked := true, above := false,
     q := [1152921504606584833, 1099512938497, 1099510054913, 1099507695617, 1099515691009, 1099516870657, 1099506515969, 1099504549889, 1099503894529, 1099503370241, 549754109953, 549753978881, 549753716737, 1152921504614055937, 1152921504598720513, 1152921504615628801, 1152921504616808449, 1152921504597016577, 1152921504595968001, 1152921504618381313, 1152921504620347393, 72057594038321153, 72057594036879361, 72057594035306497, 72057594040680449],
-    p := [2305843009211596801, 2305843009210023937, 2305843009218281473, 2305843009208713217, 2305843009218936833] },
+    p := [2305843009211596801, 2305843009210023937, 2305843009208713217, 2305843009202159617, 2305843009201242113] },
   { name := "bootstrapping.N16QP1546H192H32:ephemeral", logN := 16, xsH := 32, checked := false, above := false,
     q := [1152921504606584833],
     p := [2305843009211596801] },
@@ -632,7 +661,7 @@ def exportedSets : List ExportedSet := [
     p := [2305843009211596801, 2305843009210023937, 2305843009208713217, 2305843009202159617] },
   { name := "bootstrapping.N16QP1547H192H32:bootstrapping", logN := 16, xsH := 192, checked := true, above := false,
     q := [1152921504606584833, 35184372744193, 35184373006337, 35184368025601, 35184376545281, 35184377331713, 4398044938241, 4398043496449, 4398042972161, 1152921504614055937, 1152921504598720513, 1152921504615628801, 1152921504616808449, 1152921504597016577, 1152921504595968001, 1152921504618381313, 1152921504620347393, 1152921504592822273, 1152921504592429057, 1152921504622575617, 288230376155250689, 288230376147386369, 288230376158396417, 288230376160755713],
-    p := [2305843009211596801, 2305843009210023937, 2305843009218281473, 2305843009208713217] },
+    p := [2305843009211596801, 2305843009210023937, 2305843009208713217, 2305843009202159617] },
   { name := "bootstrapping.N16QP1547H192H32:ephemeral", logN := 16, xsH := 32, checked := false, above := false,
     q := [1152921504606584833],
     p := [2305843009211596801] },
@@ -641,7 +670,7 @@ def exportedSets : List ExportedSet := [
     p := [2305843009211596801, 2305843009210023937, 2305843009208713217, 2305843009202159617, 2305843009201242113] },
   { name := "bootstrapping.N16QP1553H192H32:bootstrapping", logN := 16, xsH := 192, checked := true, above := false,
     q := [36028797019488257, 1152921504606584833, 1152921504614055937, 1152921504598720513, 1152921504615628801, 1152921504616808449, 1152921504597016577, 1152921504595968001, 1152921504618381313, 1152921504620347393, 36028797023420417, 36028797014376449, 36028797024206849, 36028797013327873, 36028797025124353, 36028797010444289, 36028797032202241, 36028797005856769, 9007199255658497, 9007199256051713, 9007199257362433, 9007199252119553],
-    p := [2305843009211596801, 2305843009210023937, 2305843009218281473, 2305843009208713217] },
+    p := [2305843009211596801, 2305843009210023937, 2305843009208713217, 2305843009202159617] },
   { name := "bootstrapping.N16QP1553H192H32:ephemeral", logN := 16, xsH := 32, checked := false, above := false,
     q := [36028797019488257],
     p := [2305843009211596801] },
@@ -650,16 +679,16 @@ def exportedSets : List ExportedSet := [
     p := [2251799813554177, 2251799814799361] },
   { name := "bootstrapping.N15QP768H192H32:bootstrapping-with-LogN15", logN := 15, xsH := 192, checked := true, above := true,
     q := [8589475841, 1125899908022273, 33292289, 1152921504606584833, 1125899908612097, 1125899904679937, 1125899909398529, 1125899903827969, 1125899910316033, 1125899903500289, 1125899903107073, 1125899911168001, 562949952700417, 562949954142209],
-    p := [2305843009214414849, 2305843009211662337, 2305843009211596801] },
+    p := [2305843009211662337, 2305843009211596801, 2305843009211400193] },
   { name := "bootstrapping.N15QP768H192H32:ephemeral", logN := 15, xsH := 32, checked := false, above := false,
     q := [8589475841],
-    p := [2305843009214414849] },
+    p := [2305843009211662337] },
   { name := "bootstrapping.N16QP1767H32768H32:residual", logN := 16, xsH := 32768, checked := true, above := false,
     q := [1152921504606584833, 1099512938497, 1099510054913, 1099507695617, 1099515691009, 1099516870657, 1099506515969, 1099504549889, 1099503894529, 1099503370241, 1099502714881, 1099521458177, 1099522375681, 1099500617729],
     p := [2305843009211596801, 2305843009210023937, 2305843009208713217, 2305843009202159617, 2305843009201242113, 2305843009200586753] },
   { name := "bootstrapping.N16QP1767H32768H32:bootstrapping", logN := 16, xsH := 32768, checked := true, above := false,
     q := [1152921504606584833, 1099512938497, 1099510054913, 1099507695617, 1099515691009, 1099516870657, 1099506515969, 1099504549889, 1099503894529, 1099503370241, 1099502714881, 1099521458177, 1099522375681, 1099500617729, 549754109953, 549753978881, 549753716737, 1152921504614055937, 1152921504598720513, 1152921504615628801, 1152921504616808449, 1152921504597016577, 1152921504595968001, 1152921504618381313, 1152921504620347393, 72057594038321153, 72057594036879361, 72057594035306497, 72057594040680449],
-    p := [2305843009211596801, 2305843009210023937, 2305843009218281473, 2305843009208713217, 2305843009218936833] },
+    p := [2305843009211596801, 2305843009210023937, 2305843009208713217, 2305843009202159617, 2305843009201242113] },
   { name := "bootstrapping.N16QP1767H32768H32:ephemeral", logN := 16, xsH := 32, checked := false, above := false,
     q := [1152921504606584833],
     p := [2305843009211596801] },
@@ -668,7 +697,7 @@ def exportedSets : List ExportedSet := [
     p := [2305843009211596801, 2305843009210023937, 2305843009208713217, 2305843009202159617, 2305843009201242113] },
   { name := "bootstrapping.N16QP1788H32768H32:bootstrapping", logN := 16, xsH := 32768, checked := true, above := false,
     q := [1152921504606584833, 35184372744193, 35184373006337, 35184368025601, 35184376545281, 35184377331713, 35184378511361, 35184379035649, 35184365273089, 35184380870657, 4398044938241, 4398043496449, 4398042972161, 1152921504614055937, 1152921504598720513, 1152921504615628801, 1152921504616808449, 1152921504597016577, 1152921504595968001, 1152921504618381313, 1152921504620347393, 1152921504592822273, 1152921504592429057, 1152921504622575617, 288230376155250689, 288230376147386369, 288230376158396417, 288230376160755713],
-    p := [2305843009211596801, 2305843009210023937, 2305843009218281473, 2305843009208713217, 2305843009218936833] },
+    p := [2305843009211596801, 2305843009210023937, 2305843009208713217, 2305843009202159617, 2305843009201242113] },
   { name := "bootstrapping.N16QP1788H32768H32:ephemeral", logN := 16, xsH := 32, checked := false, above := false,
     q := [1152921504606584833],
     p := [2305843009211596801] },
@@ -677,7 +706,7 @@ def exportedSets : List ExportedSet := [
     p := [2305843009211596801, 2305843009210023937, 2305843009208713217, 2305843009202159617, 2305843009201242113] },
   { name := "bootstrapping.N16QP1793H32768H32:bootstrapping", logN := 16, xsH := 32768, checked := true, above := true,
     q := [36028797019488257, 1152921504606584833, 1152921504614055937, 1152921504598720513, 1152921504615628801, 1152921504616808449, 1152921504597016577, 1152921504595968001, 1152921504618381313, 1152921504620347393, 1152921504592822273, 1152921504592429057, 1152921504622575617, 1073872897, 1152921504589938689, 1152921504625328129, 36028797023420417, 36028797014376449, 36028797024206849, 36028797013327873, 36028797025124353, 36028797010444289, 36028797032202241, 36028797005856769, 9007199255658497, 9007199256051713, 9007199257362433, 9007199252119553],
-    p := [2305843009211596801, 2305843009210023937, 2305843009218281473, 2305843009208713217, 2305843009218936833] },
+    p := [2305843009211596801, 2305843009210023937, 2305843009208713217, 2305843009202159617, 2305843009201242113] },
   { name := "bootstrapping.N16QP1793H32768H32:ephemeral", logN := 16, xsH := 32, checked := false, above := false,
     q := [36028797019488257],
     p := [2305843009211596801] },
@@ -686,10 +715,10 @@ def exportedSets : List ExportedSet := [
     p := [72057594038321153, 72057594037338113] },
   { name := "bootstrapping.N15QP880H16384H32:bootstrapping-with-LogN15", logN := 15, xsH := 16384, checked := true, above := true,
     q := [1099512938497, 2147352577, 2146959361, 2148728833, 2148794369, 1152921504606584833, 36028797019488257, 36028797020209153, 36028797017456641, 36028797020602369, 36028797020864513, 36028797023420417, 36028797014704129, 36028797014573057, 4503599627763713, 4503599628353537],
-    p := [2305843009214414849, 2305843009211662337, 2305843009211596801, 2305843009211400193] },
+    p := [2305843009211662337, 2305843009211596801, 2305843009211400193, 2305843009210023937] },
   { name := "bootstrapping.N15QP880H16384H32:ephemeral", logN := 15, xsH := 32, checked := false, above := false,
     q := [1099512938497],
-    p := [2305843009214414849] }
+    p := [2305843009211662337] }
 ]
 -- END GENERATED exportedSets
 
